@@ -300,6 +300,62 @@ def run(ctx):
             a.flags.writeable = False
         return o
 
+    # fractional scalars and arrays on records stored with an integer (or real) dtype: the spec's integers stand for half-units here
+    # (every value doubled); also the same transform requested twice (a fresh object each time), and after an in-place edit
+    def half(res):
+        d = describe(res)
+        d.pop("layout_ok")
+        dbl = lambda a_: [[[int(round(2 * v.real)), int(round(2 * v.imag))] for v in row] for row in np.atleast_2d(np.asarray(a_))]
+        d["sig"] = dbl(res.signal)
+        d["noise"] = dbl(res.noise) if res.noise is not None else []
+        return d
+    for it in range(240 if T else 60):
+        cls = [electrical_signal, optical_signal][it % 2]
+        n = [1, 2, 5, 6][it % 4]
+        npol = 2 if (cls is optical_signal and it % 4 >= 2) else 1
+        dt = [np.int64, np.float64, np.int32, np.complex128, np.uint8][it % 5]
+        base = np.array([[rnd.randrange(0, 9) for _ in range(n)] for _ in range(npol)]).astype(dt)
+        nz = None if it % 3 else np.array([[rnd.randrange(-3, 4) for _ in range(n)] for _ in range(npol)]).astype([np.int64, np.float64][it % 2])
+        x = cls(base if npol == 2 else base[0], None if nz is None else (nz if npol == 2 else nz[0]))
+        for arr in arrays(x):
+            arr.flags.writeable = False
+        kind = ["float", "npscalar", "ndarray", "list"][(it // 5) % 4]
+        L = 1 if kind in ("float", "npscalar") or it % 2 else n
+        lit_vals = [rnd.randrange(-9, 10) / 2 for _ in range(L)]
+        lit = {"float": lambda: float(lit_vals[0]), "npscalar": lambda: np.float64(lit_vals[0]), "ndarray": lambda: np.array(lit_vals), "list": lambda: list(lit_vals)}[kind]()
+        op = ["add", "radd", "sub", "rsub"][it % 4]
+        ev = {"kind": "op", "op": op, "a": half(x), "b": half(x), "blit": True, "lit": [[[int(round(2 * v)), 0] for v in lit_vals]], "sl": [[], [], []], "k": 0}
+        try:
+            with deadline(30):
+                res = apply_bin(op, x, lit)
+            ev["raised"], ev["out"] = False, half(res)
+        except ValueError:
+            ev["raised"], ev["out"] = True, ev["a"]
+        except Exception as e:
+            ctx.violation(f"program:{op}:{type(e).__name__}", f"unexpected exception {e!r} for a fractional {kind} operand on a {np.dtype(dt).name} record", {"event": ev})
+            continue
+        events.append(ev)
+        meta.append((op + "-fractional-" + kind, "E" if cls is electrical_signal else "O", npol, ev["raised"]))
+        ctx.case(("fractional-operand", op, kind, np.dtype(dt).name, npol, nz is not None))
+        # the same transform twice, then after an in-place edit of the samples
+        y = cls(base.astype(complex) if npol == 2 else base[0].astype(complex), None if nz is None else (nz if npol == 2 else nz[0]))
+        dom, sh = ["w", "t", "f"][it % 3], bool(it % 2)
+        with deadline(30):
+            r1, r2 = y(dom, sh), y(dom, sh)
+            if r1 is r2 or any(np.shares_memory(p_, q_) for p_ in arrays(r1) for q_ in arrays(r2)) or any(np.shares_memory(p_, q_) for p_ in arrays(r1) for q_ in arrays(y)):
+                ctx.violation("transform:not-a-new-object", "the same transform requested twice returned the same object or shared buffers", {"domain": dom, "shift": sh})
+            r1.signal[..., 0] = 123.0
+            y.signal[..., -1] = 7.0 - 2.0j
+            if y.noise is not None:
+                y.noise[..., 0] = y.noise[..., 0] + 1
+            r3 = y(dom, sh)
+            fresh = cls(np.array(y.signal), None if y.noise is None else np.array(y.noise))(dom, sh)
+            same = np.array_equal(np.asarray(r3.signal), np.asarray(fresh.signal)) and ((r3.noise is None) == (fresh.noise is None)) and \
+                (r3.noise is None or np.array_equal(np.asarray(r3.noise), np.asarray(fresh.noise)))
+            if not same:
+                ctx.violation("transform:depends-on-earlier-calls", "a transform after an in-place edit of the samples differs from the transform of a fresh object with the same samples",
+                              {"domain": dom, "shift": sh})
+        ctx.case(("transform-twice", dom, sh, npol))
     nprog = 5000 if T else 250
     for p in range(nprog):
         cls = rnd.choice(["E", "O"])
